@@ -812,6 +812,9 @@ func runC18(c *Ctx) {
 		// (meaningful with the race build only; the detector halts the process)
 	}
 
+	if c.Batch == 0 {
+		runC18Leak(c)
+	}
 	n := 1000 // ~10 s under -race on 16 cores
 	if !c.Quick() {
 		n = 20000
